@@ -27,8 +27,11 @@ import WacModel.Ast
        valid semantic version (`version ::= <SEMVER>`, numeric parts fitting 64 bits);
    D7  any control character other than tab/CR/LF, any bidirectional-override and any
        deprecated code point anywhere in the text makes it invalid (C12 statement).
-  Everything else — in particular `'->' results` needing a result type, `result<_>` not being a
-  type, non-empty record/variant/enum/flags/tuple bodies — is taken literally.
+   D8  in `result<…>` the hole `_` may stand for an absent type in either position
+       (`result<_>`, `result<_, _>`, `result<t, _>` besides the four printed forms): the
+       repository's own test suite writes `result<_>` (tests/resolution/fail/missing-ok-result-type.wac).
+  Everything else — in particular `'->' results` needing a result type, keywords not being
+  identifiers, non-empty record/variant/enum/flags/tuple bodies — is taken literally.
 
   Core Lean only.
 -/
@@ -369,6 +372,11 @@ def gPackagePath : SP PackagePath := do
     | some ver => pure ⟨z, s, name, segs.getD [], some ver⟩
     | none => fail
 
+mutual
+/-- `type | '_'` -/
+def gTypeOrHole : Nat → SP (Option Ty)
+  | 0 => fail
+  | fuel + 1 => (do t "_"; pure none) <+> (do let ty ← gType fuel; pure (some ty))
 /-- `type` (with `tuple`, `list`, `option`, `result`, `borrow`) -/
 def gType : Nat → SP Ty
   | 0 => fail
@@ -387,13 +395,14 @@ def gType : Nat → SP Ty
     -- option ::= 'option' '<' type '>'
     (do t "option"; t "<"; let ty ← gType fuel; t ">"; pure (.Option ty z)) <+>
     -- result ::= 'result' | 'result' '<' type '>' | 'result' '<' '_' ',' type '>' | 'result' '<' type ',' type '>'
+    -- (D8: `_` may stand for an absent type in either position: 'result' '<' (type|'_') (',' (type|'_'))? '>')
     (do t "result"; pure (.Result none none z)) <+>
-    (do t "result"; t "<"; let ok ← gType fuel; t ">"; pure (.Result (some ok) none z)) <+>
-    (do t "result"; t "<"; t "_"; t ","; let err ← gType fuel; t ">"; pure (.Result none (some err) z)) <+>
-    (do t "result"; t "<"; let ok ← gType fuel; t ","; let err ← gType fuel; t ">"; pure (.Result (some ok) (some err) z)) <+>
+    (do t "result"; t "<"; let ok ← gTypeOrHole fuel; t ">"; pure (.Result ok none z)) <+>
+    (do t "result"; t "<"; let ok ← gTypeOrHole fuel; t ","; let err ← gTypeOrHole fuel; t ">"; pure (.Result ok err z)) <+>
     -- borrow ::= 'borrow' '<' id '>'   (D2)
     (do t "borrow"; t "<"; let id ← gId; t ">"; pure (.Borrow id z)) <+>
     (do let id ← gId; pure (.Ident id))
+end
 
 /-- `named-type ::= id ':' type` -/
 def gNamedType (fuel : Nat) : SP NamedType := do
